@@ -295,6 +295,9 @@ func Build(s Spec) (*Object, error) {
 			if err != nil {
 				return nil, err
 			}
+			for i, r := range s.Rows {
+				as.SubAnnotations[i].Strand = seq.Strand(r.Strand) // rows of an alignment carry their own strand
+			}
 			o.ASeq = as
 		} else {
 			cols := make([][]alphabet.QLetter, n)
@@ -309,6 +312,9 @@ func Build(s Spec) (*Object, error) {
 				return nil, err
 			}
 			as.Threshold = 2
+			for i, r := range s.Rows {
+				as.SubAnnotations[i].Strand = seq.Strand(r.Strand)
+			}
 			o.AQSeq = as
 		}
 	case "multi", "multiq", "set", "setq":
@@ -363,6 +369,10 @@ func rowStrand(s seq.Sequence) int8 {
 		return int8(r.Strand)
 	case *linear.QSeq:
 		return int8(r.Strand)
+	case alignment.Row:
+		return int8(r.Align.SubAnnotations[r.Row].Strand)
+	case alignment.QRow:
+		return int8(r.Align.SubAnnotations[r.Row].Strand)
 	}
 	return 0
 }
